@@ -52,7 +52,7 @@ def run(tier, work):
             if stat_rows:
                 jobs.append({"files": {"t.rb": text}, "args": ["t.rb", "--define", "--row=%d" % stat_rows[0]]})
                 meta.append(("define-static", gi, style, [d for d in defs if d["static"]], None))
-            oks = [e for e in exp if e[4]["k"] == "ok" and e[1] in ("inst", "static")]
+            oks = [e for e in exp if e[4]["k"] == "ok" and e[1] in ("inst", "static") and not e[4].get("attr")]
             for e in (oks if tier == "thorough" else oks[:3]):
                 owner = resolve_owner(gr, e)
                 jobs.append({"files": {"t.rb": text}, "args": ["t.rb", "--hover", "--row=%d" % (len(dl) + e[0] + 1)]})
